@@ -77,6 +77,34 @@ Theorem C16_unchecked_access_refuted :
 Proof. split; [exact unchecked_list_refuted | exact unchecked_dict_refuted]. Qed.
 Print Assumptions C16_unchecked_access_refuted.
 
+(* UNFLATTEN while user code (an unflatten function, a namedtuple subclass constructor, a key's __hash__)
+   mutates the list of leaves it was handed, for EVERY script of mutations, every list and every leaf
+   count: the leaves are taken through the bounds-checked iterator protocol, so the result has exactly
+   the treespec's number of leaves, each of them an element the list held when it was fetched (an
+   original leaf or one the script appended — never a stale or freed slot), or ValueError (too few /
+   too many leaves). Without mutation the leaves come back unchanged. *)
+Theorem C16_unflatten_leaves_mutation_safe :
+  forall script n l,
+  (exists vs, unflatten_leaves_mut true script n l = Ok vs /\ length vs = n) \/
+  unflatten_leaves_mut true script n l = Err ValueError.
+Proof. exact unflatten_leaves_mut_safe. Qed.
+Print Assumptions C16_unflatten_leaves_mutation_safe.
+
+Theorem C16_unflatten_leaves_provenance :
+  forall script n l vs, unflatten_leaves_mut true script n l = Ok vs -> incl vs (l ++ appended script).
+Proof. exact unflatten_leaves_mut_provenance. Qed.
+Print Assumptions C16_unflatten_leaves_provenance.
+
+Theorem C16_unflatten_no_mutation : forall l, unflatten_leaves_mut true [] (length l) l = Ok l.
+Proof. exact unflatten_no_mutation. Qed.
+Print Assumptions C16_unflatten_no_mutation.
+
+(* what capturing the item array and its size up front would do (the variant a seeded change introduces) *)
+Theorem C16_unflatten_captured_array_refuted :
+  exists script n l, unflatten_leaves_mut false script n l = Err Crash.
+Proof. exact unflatten_raw_refuted. Qed.
+Print Assumptions C16_unflatten_captured_array_refuted.
+
 (* more depth budget never changes a successful result: a tree that flattens under a limit flattens
    to the same leaves and the same treespec under every larger limit (the limit only decides between a
    result and RecursionError) *)
